@@ -11,7 +11,7 @@
    commodity the price is expressed in); the priced commodity is the other end of the
    edge.  The graph is the list of its edges in creation order (boost adjacency_list
    with vecS: edge and adjacency iteration follow creation order). *)
-From LedgerV Require Import Base.Prelude Gen.PriceMemo Gen.CostDate Gen.PercentExpr Gen.FindPriceDispatch.
+From LedgerV Require Import Base.Prelude Gen.PriceMemo Gen.CostDate Gen.PercentExpr Gen.FindPriceDispatch Gen.PathWeight.
 Local Open Scope Z_scope.
 
 Definition comm := str.
@@ -139,6 +139,79 @@ Definition find_price (g : graph) (src tgt : comm) (D : Z) : option price :=
        | [] => None
        | p :: _ => Some (mkPrice (Qred (path_q p)) tgt)
        end.
+
+(* ---- find_price(source, target, moment, oldest) when SEVERAL paths join source and target
+   (history.cc:435-546).  The filter predicate recent_edge_weight (history.cc:214-253) keeps an
+   edge when it has a price not after `moment` and - when `oldest` is given - that price is not
+   before `oldest`; it stores the AGE of that price, (moment - when) in seconds, as the weight of
+   the edge.  dijkstra_shortest_paths runs with distance_combine(f_max<long>()) (history.cc:41-50,
+   464-467): the distance of a vertex is max(distance of its predecessor, weight of the edge),
+   starting from zero, i.e. the weight of a path is the age of its STALEST price, and the
+   predecessor map yields a path of least such weight (std::less, relaxation on strict
+   improvement only).  Which combine function the call passes is re-read from the source
+   (Gen/PathWeight.v).
+   Ties: when several simple paths share the least weight, which one the predecessor map holds
+   depends on the order in which boost's 4-ary heap pops vertices of equal distance; that is NOT
+   modelled.  `find_price_via` takes the first least-weight path in enumeration order, `via_tie`
+   says whether a second one exists; the harness compares the rate only where it says no (the
+   oracle still requires the rate of SOME least-weight path). ---- *)
+Definition step_when (s : step) : Z := fst (s_pt s).
+Definition step_age (D : Z) (s : step) : Z := D - step_when s.
+
+Definition path_combine (x y : Z) : Z :=
+  match dijkstra_combine with
+  | CombineMax => Z.max x y
+  | CombineSum => x + y
+  | CombineUnrecognised => 0
+  end.
+
+(* distance of the target along p: zero at the source, combined edge by edge *)
+Definition path_weight (D : Z) (p : list step) : Z :=
+  fold_left (fun acc s => path_combine acc (step_age D s)) p 0.
+
+(* "edge is out of range" (history.cc:238-241) *)
+Definition step_ok (oldest : option Z) (s : step) : bool :=
+  match oldest with
+  | None => true
+  | Some o => negb (step_when s <? o)
+  end.
+
+(* the simple paths of the filtered graph: an edge rejected because of `oldest` is absent from it *)
+Definition candidates (g : graph) (D : Z) (oldest : option Z) (src tgt : comm) : list (list step) :=
+  filter (forallb (step_ok oldest)) (paths (2 * length g) g D [] src tgt).
+
+(* the smaller weight wins; an equal weight does not replace the path already held *)
+Fixpoint lightest (D : Z) (best : list step) (l : list (list step)) : list step :=
+  match l with
+  | [] => best
+  | p :: r => lightest D (if path_weight D p <? path_weight D best then p else best) r
+  end.
+
+(* history.cc:470-506: walking from the target back, least_recent is the `when` of the first
+   point met, then lowered by every older point *)
+Definition path_when (p : list step) : Z :=
+  match rev p with
+  | [] => 0
+  | s :: r => fold_left (fun l x => if step_when x <? l then step_when x else l) r (step_when s)
+  end.
+
+Definition find_price_via (g : graph) (src tgt : comm) (D : Z) (oldest : option Z)
+  : option (Z * price) :=
+  if comm_eqb src tgt then None
+  else match candidates g D oldest src tgt with
+       | [] => None
+       | p :: r =>
+           let c := lightest D p r in
+           Some (path_when c, mkPrice (Qred (path_q c)) tgt)
+       end.
+
+Definition via_tie (g : graph) (src tgt : comm) (D : Z) (oldest : option Z) : bool :=
+  match candidates g D oldest src tgt with
+  | [] => false
+  | p :: r =>
+      let w := path_weight D (lightest D p r) in
+      (1 <? Z.of_nat (length (filter (fun q => path_weight D q =? w) (p :: r))))
+  end.
 
 (* ---- find_price(source, moment) (history.cc:374-433), used by -V: the most recent
    point among the usable edges at the source, the first edge winning a tie ---- *)
@@ -333,6 +406,25 @@ Definition prims (h : history) : list comm :=
 Definition bal_row (l : list item) (held : list holding) (tgt : option comm) (D : Z) : list (comm * Q) :=
   let h := history_of l in
   convert_all (build h) (mkCtx (prims h) (default_of l None)) held tgt D.
+
+(* amount_t::value / fn_market for -X t through this lookup (no `oldest` is ever passed by the
+   reports: amount.cc:752-810 calls find_price(comm, moment)) *)
+Definition convert_via (g : graph) (a : holding) (t : comm) (D : Z) : Q * comm :=
+  if comm_eqb (hc a) t then (Qred (hq a), hc a)
+  else match find_price_via g (hc a) t D None with
+       | Some (_, p) => (Qred (pq p * hq a), pc p)
+       | None => (Qred (hq a), hc a)
+       end.
+
+(* `bal -X T --now D` over a price graph with several paths: one account's display_total, and
+   whether some holding's conversion met a tie between least-weight paths *)
+Definition bal_row_via (l : list item) (held : list holding) (t : comm) (D : Z) : list (comm * Q) :=
+  let g := build (history_of l) in
+  nonzero (fold_left (fun b a => let r := convert_via g a t D in acc_add b (snd r) (fst r)) held []).
+
+Definition bal_row_via_tie (l : list item) (held : list holding) (t : comm) (D : Z) : bool :=
+  let g := build (history_of l) in
+  existsb (fun a => negb (comm_eqb (hc a) t) && via_tie g (hc a) t D None) held.
 
 (* `bal --percent -X T` / `--percent -V` (report.cc:167-177): the total expression becomes
      (__tmp = market(parent.total, value_date, exchange);
